@@ -13,6 +13,11 @@ NA_FIXED = {
 }
 
 CLAIMS = {
+    'C04': dict(
+        technique="static must-call-once / ordering analysis over MIR (un-encode exactly once, last, not on the idle path), canonical-expression agreement between writer and reader ranges and between Shards::insert and its inverse, pairing rules over typed HIR for blocks and lanes",
+        text="Decides the slicing/un-encode discipline for every shard size at once: results cut to shard_bytes; the final-block re-packing runs exactly once after all transforms over exactly the range the accessor exposes, in all four codec functions; insert and undo agree on the half-block split and tail/2; Shards::resize rewrites every field; zips over blocks pair identically sliced operands; scalar kernels index blocks only by i / i+32. Tests exercise odd sizes only at (3,2), i.e. one rate.",
+        note="Not decided: lane independence inside the SIMD nibble-shuffle kernels and the resulting bytes (bit-level arithmetic).",
+        design="§4 C04"),
     'C11': dict(
         technique="static write-set analysis of the add paths (MIR mutation summaries + linear normal forms of positions), who-may-read rule for the decoders, typed-HIR decision atoms for accessor and shortcut",
         text="Decides the bookkeeping clause: each add writes exactly {shard at pos, bit pos, counter+1} with pos = base + index and no per-round state flowing into positions or stored bytes, so the state a decode sees is a function of the SET of added shards (all permutations coincide); decoders read only decode_begin's (store, counts, bitmap); given originals are never exposed; a complete set of originals returns the untouched (empty) result.",
